@@ -1,5 +1,6 @@
 import B2Z.Model.Schema
 import B2Z.Gen.Dtypes
+import B2Z.Proofs.Schema
 /-! # C02 — every produced store is a self-consistent, openable dataset (schema part)
 
 Model: `B2Z.Schema` (`Model/Schema.lean`).  The chunk-grid clause is `B2Z.Pipe.C02_chunk_grid_complete`
@@ -19,21 +20,23 @@ def Coherent (a b : Spec) : Prop :=
     its length — so the store opens as a labelled dataset -/
 theorem C02_dims_coherent (fields : List Field) (hf : FieldsOK fields) (m n nc nf vcs scs : Nat) (specs : List Spec)
     (h : generate true fields m n nc nf vcs scs = some specs) :
-    ∀ a ∈ specs, ∀ b ∈ specs, Coherent a b := by
-  sorry
+    ∀ a ∈ specs, ∀ b ∈ specs, Coherent a b :=
+  generate_coherent fields hf.1 m n nc nf vcs scs specs h
 
 /-- every array has as many dimension names as axes -/
 theorem C02_dims_rank (fields : List Field) (m n nc nf vcs scs : Nat) (specs : List Spec) (repair : Bool)
     (h : generate repair fields m n nc nf vcs scs = some specs) :
     ∀ a ∈ specs, a.dims.length = a.shape.length ∧ a.chunks.length = a.shape.length := by
-  sorry
+  obtain ⟨M, pl, hall⟩ := generate_forms repair fields m n nc nf vcs scs specs h
+  exact fun a ha => ⟨form_rank (hall a ha).1, (hall a ha).2.1⟩
 
 /-- axis 0 is the record count; a `samples` axis has the sample count -/
 theorem C02_variant_sample_axes (fields : List Field) (m n nc nf vcs scs : Nat) (specs : List Spec) (repair : Bool)
     (h : generate repair fields m n nc nf vcs scs = some specs) :
     ∀ a ∈ specs, a.dims.head? = some Dim.variants ∧ a.shape.head? = some m ∧
       (∀ i : Nat, a.dims[i]? = some Dim.samples → a.shape[i]? = some n) := by
-  sorry
+  obtain ⟨M, pl, hall⟩ := generate_forms repair fields m n nc nf vcs scs specs h
+  exact fun a ha => form_axes (hall a ha).1
 
 /-- finding F6 (fixed): before the repair a Number=R field observed with 2 values in a file with 3
     alleles shared the name `alleles` with `variant_allele` (3) — incoherent -/
@@ -46,13 +49,21 @@ theorem C02_dims_counterexample_unrepaired :
     (∃ specs, generate true fields 4 0 1 1 10 10 = some specs ∧
         (specs.map fun s => (s.name, s.dims.map Dim.render, s.shape)).contains
           ("variant_AD", ["variants", "INFO_AD_dim"], [4, 2])) := by
-  sorry
+  intro fields
+  refine ⟨⟨_, rfl,
+    { name := "variant_allele", dtype := "O", shape := [4, 3], chunks := [10, 3], dims := [.variants, .alleles],
+      vcfField := none }, by decide,
+    { name := "variant_AD", dtype := "i1", shape := [4, 2], chunks := [10, 2], dims := [.variants, .alleles],
+      vcfField := some ("INFO", "AD") }, by decide, ?_⟩, ⟨_, rfl, by decide⟩⟩
+  intro hc
+  exact absurd (hc 1 1 .alleles rfl rfl) (by decide)
 
 /-- every dtype the generator can emit is a signed integer type, `f4`, `bool`, `O` or `U1` -/
 theorem C02_dtypes (fields : List Field) (m n nc nf vcs scs : Nat) (specs : List Spec) (repair : Bool)
     (h : generate repair fields m n nc nf vcs scs = some specs) :
     ∀ a ∈ specs, a.dtype ∈ ["i1", "i2", "i4", "i8", "f4", "bool", "O", "U1"] := by
-  sorry
+  obtain ⟨M, pl, hall⟩ := generate_forms repair fields m n nc nf vcs scs specs h
+  exact fun a ha => (hall a ha).2.2
 
 /-- … and in every integer dtype both sentinels are representable (the cast keeps them) -/
 theorem C02_sentinels_representable :
